@@ -199,7 +199,28 @@ int vp_harness_main(void) {
       ASSERT(((fl & 2) != 0) == (endpos == n), "full_match <=> all characters were consumed");
       if (endpos > 0 && endpos < n) REACH("partial match");
     }
-    S_destroy(&s.f0); }
+    S_destroy(&s.f0);
+#ifndef __CPROVER__
+    /* native side: the solver's free choice here is a libc RESULT (the stub's value); its text is short, and on short text every correctly rounded parser
+     * agrees.  Directed concretisation: texts on which parsers of different precision disagree (just off the midpoint of two adjacent floats / doubles,
+     * above the largest finite float), against the real strtof / strtod */
+    { static const char *const hard[] = { "1.00000005960464477539062500001", "0.500000029802322387695312500001", "16777217.0000001", "3.4028235677973366e38",
+                                          "1.1754942106924411e-38", "9007199254740993.0000000000000001", "0x1.000001p0", "1e23", 0 };
+      extern double strtod(const char *, char **); extern float strtof(const char *, char **); extern unsigned long strlen(const char *);
+      extern void vp_str_from_validated(void *, const uint8_t *, uint64_t);     /* exported by the shim; not a root of the symbolic run */
+      for (int k = 0; hard[k]; k++) {
+        str_t h; int32_t hf = 99; uint64_t eb, gb; char *e = 0;
+        vp_str_from_validated(&h, (const uint8_t *)hard[k], strlen(hard[k]));
+#if FLT
+        { float x = strtof(hard[k], &e); eb = *(uint32_t *)&x; float g = vp_to_float(&h, &hf); gb = *(uint32_t *)&g; }
+#else
+        { double x = strtod(hard[k], &e); eb = *(uint64_t *)&x; double g = vp_to_double(&h, &hf); gb = *(uint64_t *)&g; }
+#endif
+        ASSERT(gb == eb, "value = what strtod/strtof returns on the same text (bit-identical)");
+        vp_str_dtor(&h);
+      } }
+#endif
+  }
 #endif
   REACH("end of harness");
   return 0;
